@@ -44,7 +44,7 @@ pub fn roundtrip_event_upd(run: usize, p0: &Problem, dir: &str, solve_first: boo
     let mut pnew = p0.clone();
     if update {
         let mask: u32 = std::env::var("VH_UPD_MASK").ok().and_then(|x| x.parse().ok()).unwrap_or(15);
-        if mask & 1 != 0 { for (k, v) in pnew.q.iter_mut().enumerate() { *v = *v * 1.5 + 0.25 * (k as f64 + 1.0); } }
+        if mask & 1 != 0 { for (k, v) in pnew.q.iter_mut().enumerate() { if v.abs() < 1e307 { *v = *v * 1.5 + 0.25 * (k as f64 + 1.0); } } }   // (the largest finite values stay as they are)
         if mask & 2 != 0 { for v in pnew.b.iter_mut() { if v.is_finite() && v.abs() < 1e15 { *v = *v * 1.25 + 0.5; } } }
         if mask & 4 != 0 { for v in pnew.A.nzval.iter_mut() { *v *= 1.125; } }
         if mask & 8 != 0 { for v in pnew.P.nzval.iter_mut() { *v *= 1.0625; } }
@@ -372,6 +372,9 @@ pub fn fault_events(seed: u64, thorough: bool, dir: &str) -> Vec<Value> {
         }
         if annz > 0 { sem("A.colptr non-monotone", "Struct", &|x| { let l = x["A"]["colptr"].as_array().unwrap().len(); if l >= 2 { let last = x["A"]["colptr"][l - 1].clone(); x["A"]["colptr"][0] = last; } }); }
         sem("A.colptr first nonzero", "Struct", &|x| { x["A"]["colptr"][0] = json!(1); });
+        // the last column pointer lowered by one: still monotone, still starts at 0, but no longer the number of stored entries
+        if annz > 0 { sem("A.colptr last lowered", "Struct", &|x| { let l = x["A"]["colptr"].as_array().unwrap().len(); let v = x["A"]["colptr"][l - 1].as_u64().unwrap(); x["A"]["colptr"][l - 1] = json!(v - 1); }); }
+        if v["P"]["rowval"].as_array().unwrap().len() > 0 { sem("P.colptr last lowered", "Struct", &|x| { let l = x["P"]["colptr"].as_array().unwrap().len(); let v = x["P"]["colptr"][l - 1].as_u64().unwrap(); x["P"]["colptr"][l - 1] = json!(v - 1); }); }
         sem("P.colptr too short", "Struct", &|x| { x["P"]["colptr"].as_array_mut().unwrap().pop(); });
         sem("P.nzval extra entry", "Struct", &|x| { x["P"]["nzval"].as_array_mut().unwrap().push(json!(1.0)); });
         sem("A.m too large", "Dims", &|x| { let m = x["A"]["m"].as_u64().unwrap(); x["A"]["m"] = json!(m + 1); });
@@ -562,6 +565,14 @@ pub fn roundtrip_events(seed: u64, count: usize, dir: &str) -> (Vec<Value>, Vec<
         if rng.gen::<f64>() < 0.1 { p.P = Csc::zeros(p.n(), p.n()); }
         if rng.gen::<f64>() < 0.1 && !p.q.is_empty() { p.q[0] = 1.2345678901234567e300; }
         if rng.gen::<f64>() < 0.1 && !p.q.is_empty() { p.q[0] = 4.9e-324; }
+        // the largest finite value itself (equilibration off, so that the stored entry is the user's)
+        if rng.gen::<f64>() < 0.06 && !p.q.is_empty() {
+            let k = rng.gen_range(0..p.q.len());
+            p.q[k] = if rng.gen::<bool>() { f64::MAX } else { -f64::MAX };
+            if !p.settings.is_object() { p.settings = json!({}); }
+            p.settings["equilibrate_enable"] = json!(false);
+            if rng.gen::<bool>() && p.m() > 0 { let i = rng.gen_range(0..p.m()); p.b[i] = -f64::MAX; }
+        }
         // large finite right-hand sides (1e16 .. 1e19, below the infinity bound) in rows with tiny coefficients: the row scaling
         // is then far above 1 and the scaled entry crosses the bound although the user's does not
         if rng.gen::<f64>() < 0.12 && p.m() > 0 {
